@@ -7,16 +7,22 @@ import schemagen, sqlitecat
 RULES = {"C13": "declared histories = TLC-enumerated pick vectors over (40 column types incl. parameters) x (20 ordered specification lists) x (10 table-level extras: composite / named keys, unique indexes, foreign keys with actions, checks, IF NOT EXISTS) x two follow-up statements out of 28 (ADD / RENAME / DROP COLUMN, RENAME TABLE, CREATE [UNIQUE] INDEX with directions, DROP INDEX, DROP TABLE, ...), pairwise-complete plus simulated walks; the SQLite rendering of each step is executed on the real engine and PRAGMA table_xinfo / index_list / index_xinfo / foreign_key_list / sqlite_master are compared by TLC with the catalogue model stepped on the declarations (SqliteCatalog.tla), incl. type affinity; non-trivial = at least one step inside SQLite's feature set",
          "C14": "declared histories as for C13; the MySQL and PostgreSQL renderings of every step (CREATE / ALTER / RENAME / DROP / TRUNCATE TABLE, CREATE / DROP INDEX, foreign keys, PostgreSQL CREATE / ALTER / DROP TYPE) are parsed by the dialect's DDL grammar in TLA+ (EngineDDL) and compared with the declaration: every column once with one type the dialect defines (parameters, UNSIGNED, serial types), each specification once and in order, table-level elements, ALTER actions correctly separated; non-trivial = history with a follow-up statement"}
 
-def collect_schema(pid, tier, replay_path, prefixes, wd, rng, quick_cap=2600):
+def collect_schema(pid, tier, replay_path, prefixes, wd, rng, quick_cap=2600, flavour="base"):
     states = gen = 0
     if replay_path:
         hists = [r["history"] for r in json.load(open(replay_path))["records"]]
     else:
         schemagen.write_menu(os.path.join(SPEC, "schema_menu.json"))
         cfg = "SPECIFICATION Spec\nCONSTANT MenuFile = \"schema_menu.json\"\nCONSTANT Budget = 2\nCONSTANT MenuKinds = {\"schema\"}\nINVARIANT PicksInRange Emit\nCHECK_DEADLOCK FALSE\n"
+        # design check on the implementation-level model of the DDL renderers (no implementation involved)
+        ds = run_tlc("MCSchema", "SPECIFICATION Spec\nINVARIANT LexesCleanly Check\nCHECK_DEADLOCK FALSE\n", os.path.join(wd, "design"), workers=8, heap="4g", young=None, timeout=3000)
+        tlc_must_pass(ds, "MCSchema")
+        mvs = ds.json_payloads("MV")
+        log("[%s] MCSchema: %d declarations rendered by the model and parsed by the MySQL / PostgreSQL DDL grammars; %d model-level counterexamples (%s)"
+            % (pid, ds.distinct, len(mvs), ", ".join(sorted(set(x for m in mvs for x in list(m["mysql"]) + list(m["pg"]))))[:300]))
         mc = run_tlc("MCMenu", cfg, os.path.join(wd, "mc"), workers=8, heap="4g", young=None, timeout=3000)
         tlc_must_pass(mc, "MCMenu(schema)")
-        states, gen = mc.distinct, mc.generated
+        states, gen = mc.distinct + ds.distinct, mc.generated + ds.generated
         picks = [c["picks"] for c in mc.json_payloads("CASE")]
         sim = run_tlc("MCMenu", cfg.replace("Budget = 2", "Budget = 99"), os.path.join(wd, "sim"), workers=2, heap="2g", young=None,
                       simulate="num=%d" % (300 if tier == "quick" else 6000), depth=8, tseed=seed())
@@ -28,7 +34,7 @@ def collect_schema(pid, tier, replay_path, prefixes, wd, rng, quick_cap=2600):
         hists = [schemagen.assemble(p) for p in picks]
         log("[%s] MC: %d states; %d declared histories" % (pid, states, len(hists)))
     cases = [{"id": i, "history": h} for i, h in enumerate(hists)]
-    recs, dt = replay("schema", cases, wd)
+    recs, dt = replay("schema", cases, wd, flavour=flavour)
     # the real SQLite executes the SQLite renderings step by step
     neng = 0
     for r in recs:
@@ -41,15 +47,16 @@ def collect_schema(pid, tier, replay_path, prefixes, wd, rng, quick_cap=2600):
     verdicts, vt = validate("SchemaTrace", recs, os.path.join(wd, "tv"), jvms=12)
     log("[%s] replayed %d histories in %.1fs, %d statements executed on SQLite, validated in %.1fs" % (pid, len(recs), dt, neng, vt))
     byid = {r["id"]: r for r in recs}
-    nontriv = 0; fails = []
+    nontriv = 0; fails = []; drift = {}
     for v in verdicts:
         r = byid[v["id"]]
+        for dk in v.get("drift", []): drift[dk] = drift.get(dk, 0) + 1
         for k in sorted(set(v["keys"])):
             if any(k.startswith(p) for p in prefixes):
                 fails.append((k, {"history": r["history"], "steps": r["steps"], "engine": [{"exec": e["exec"], "msg": e["msg"]} for e in r["engine"]]}))
         nontriv += 1 if (v["n13"] > 0 if pid == "C13" else v["nsteps"] > 2) else 0
     stats = {"states": max(states, 1), "transitions": max(gen, 1), "n": len(verdicts), "evals": sum(len(r["steps"]) for r in recs), "nontriv": nontriv,
-             "samples": [{"history": r["history"]} for r in recs[:: max(1, len(recs) // 3)][:3]], "neng": neng}
+             "samples": [{"history": r["history"]} for r in recs[:: max(1, len(recs) // 3)][:3]], "neng": neng, "drift": drift}
     return fails, stats
 
 def run_schema(pid, tier, replay_path, prefixes):
@@ -57,9 +64,16 @@ def run_schema(pid, tier, replay_path, prefixes):
     wd = workdir(pid); rng = random.Random(seed()); V = Verdict(pid, tier)
     fails, st = collect_schema(pid, tier, replay_path, prefixes, wd, rng)
     for k, rec in fails: V.fail(k, rec)
+    exact_n = 0
+    if pid == "C13" and tier == "thorough" and not replay_path:
+        # the same declaration space with the crate built under option-sqlite-exact-column-type (integer types all spelled "integer")
+        import os
+        f2, st2 = collect_schema(pid, "quick", None, prefixes, os.path.join(wd, "exact"), rng, flavour="exact")
+        for k, rec in f2: V.fail(k.replace("C13/", "C13/exact_column_type/", 1), rec)
+        exact_n = st2["n"]
     cov = {"states": st["states"], "transitions": st["transitions"], "traces_validated_against_impl": st["n"],
            "evaluations": st["evals"], "distinct_nontrivial": st["nontriv"], "rule": RULES.get(pid, ""),
-           "samples": st["samples"], "sqlite_statements_executed": st["neng"]}
+           "samples": st["samples"], "sqlite_statements_executed": st["neng"], "impl_model_exact": not st["drift"], "drift": st["drift"], "histories_under_option_sqlite_exact_column_type": exact_n}
     return std_finish(pid, tier, t0, V, cov,
                       ["SQLite 3.40.1 catalogue (PRAGMAs) is the observation for C13; the catalogue model's engine rules are re-validated by every run",
                        "MySQL 8.0 / PostgreSQL 15 DDL grammars and data-type tables as transcribed in EngineDDL.tla; table options (ENGINE, COLLATE, COMMENT) are not compared",
